@@ -92,8 +92,6 @@ def _compare_loaded(path: str, ref_model, x, ref_out, expect_mode: str, nbytes: 
             problems.append("web export left a sidecar file next to the model")
     else:
         # (which tensors spill is the onnx library's size_threshold policy, not part of the property)
-        if [b for b in big if len(b) and b not in ext and SIZES.get("2.5MiB") == nbytes and False]:
-            pass
         if ext and not os.path.exists(path + ".data"):
             problems.append("standard export references a sidecar that does not exist")
     try:
